@@ -71,6 +71,22 @@ add('C15', 'fault_enumeration',
     'Every stream-write index (text sink) and every byte capacity (utf-8 / latin-1 raw sinks) at which the pipe breaks x 12 query shapes; every byte position of an invalid byte x 9 chunk sizes (input and join file); /proc/self/fd before/after every success / parsing / runtime / IO-error scenario of query_csv and query_sqlite_to_csv; a user writer refusing at every write index under 16 shapes; the real CLI piped into head -c N.',
     TRUST + ' Fault injection through harness-owned streams / writers; /proc/self/fd as the fd oracle.', 'fault injection at every write index / byte position / refusal index, with prefix, pull-bound, fd-set and writer-protocol oracles', 'DESIGN.md §2 C15')
 
+add('C06', 'exploration',
+    'Queries of the C01-C05 generators plus failing ones against every source kind: Python lists (deep snapshot + identity of every output record against every source row), rbql-js arrays (returned by the node driver after the call), pandas dataframes (equals + dtypes + index + columns), a sqlite file (sha256, side files, and every SQL string handed to a recording connection proxy matched against the identifier whitelist, with hostile identifiers from a grammar of SQL metacharacters), CSV input / join files (sha256 + mtime, library and CLI).',
+    TRUST + ' node v20, pandas, sqlite3.', 'property-based testing (Hypothesis): before/after invariants over every source kind + SQL-string whitelist with hostile identifiers', 'DESIGN.md §2 C06')
+add('C08', 'exploration',
+    'Metamorphic: a generated query and a random composition of re-spellings (keyword case, clause order, white space, line breaks, comment lines, semicolons, aN/a[N], TOP/LIMIT, join synonyms, ON spellings, FROM a, UPDATE a SET) must give the same result; a string literal over an alphabet of all keywords and metacharacters added to SELECT / WHERE / ORDER BY / UPDATE leaves everything else unchanged and reaches the output verbatim; a JS leg does the same through rbql-js. One known finding (D8) is excluded by construction and probed on every run.',
+    TRUST, 'property-based testing (Hypothesis), metamorphic relations (re-spelling invariance, literal opacity)', 'DESIGN.md §2 C08')
+add('C09', 'exploration',
+    'Random headers of hostile names (quotes, backslashes, brackets, TAB/LF/CR, non-ASCII, astral) x every column position x quote styles x spellings (a["n"], a[\'n\'], a.n, bare name in direct mode) used as SELECT item / WHERE operand / EXCEPT column / UPDATE target / JOIN key through list, CSV, pandas and sqlite back-ends, judged by position lookup; the WITH (header|noheader) x caller flag matrix through query_csv and the CLI with a join file. One known finding (D16) is excluded by construction and probed on every run.',
+    TRUST, 'property-based testing (Hypothesis) with a position-lookup oracle across four back-ends', 'DESIGN.md §2 C09')
+add('C13', 'exploration',
+    'Random type-agnostic queries (and failing ones) over rectangular string tables through 9 entry points (query_table, query with harness objects, query_csv, the CLI file->file / stdin->stdout / --out-format csv|tsv, pandas, sqlite): identical tables and headers after str() normalisation; CLI exit status, stderr / stdout discipline and the Error [type] mapping.',
+    TRUST + ' CLI sub-processes run with PYTHONPATH=<repo>/rbql-py.', 'property-based testing (Hypothesis), differential between front-ends + CLI protocol predicate', 'DESIGN.md §2 C13')
+add('C16', 'exploration',
+    'Histories: every ordered pair (and, thorough, every ordered triple) of a 44-scenario pool plus rule-based state machines over longer sequences, each step compared with the same scenario run alone in a fresh interpreter. Interleavings: two queries in two threads under a harness-owned cooperative scheduler that switches only at get_record / write / set_header / finish; every interleaving enumerated by re-execution (2-record tables quick; 3-record tables and larger joins thorough).',
+    TRUST + ' Only cooperative switch points are explored, not byte-code-level pre-emption.', 'stateful property-based testing (Hypothesis rule-based machines) + exhaustive enumeration of interleavings under a deterministic scheduler', 'DESIGN.md §2 C16')
+
 NOT_APPLICABLE = []
 ALL = ['C%02d' % i for i in range(1, 21)]
 PENDING_REASON = 'check not built yet in this revision of /verif (planned, see DESIGN.md); not claimed until it exists and is quiet on the unchanged tree'
